@@ -255,6 +255,11 @@ class Gen:
             return ["draw", vals, self.label(owner), form]
         if op == "override":
             obj = self.t.choice(self.objs_visible, "ovr.obj")
+            if self.f.get("override_behavior") and self.beh_names_all and self.t.chance(1, 3, "ovr.behavior"):
+                # (the reference does not model behavior overrides: such programs are only
+                # judged by the state invariants of C14)
+                self.has_behavior_override = True
+                return ["override", obj, "behavior", ["raw", self.t.choice(self.beh_names_all, "ovr.beh") + "()"]]
             prop = self.t.choice(["foo", "bar"], "ovr.prop")
             return ["override", obj, prop, self.t.intrange(10, 99, "ovr.val")]
         raise AssertionError(op)
@@ -270,6 +275,8 @@ class Gen:
         modular = t.weighted([f["flat"], f["modular"]], "modular") == 1 or ns > 0
         self.objs_visible = []
         beh_names = [f"B{i}" for i in range(nb)]
+        self.beh_names_all = beh_names
+        self.has_behavior_override = False
         behaviors = []
         for i in reversed(range(nb)):
             d = {"kind": "behavior", "name": beh_names[i]}
@@ -362,6 +369,7 @@ class Gen:
             top_setup.append(["require", self.table("guard")])
         prog = {
             "ftab": bool(f.get("ftab")),
+            "has_behavior_override": self.has_behavior_override,
             "timestep": self.timestep,
             "max_steps": max_steps,
             "behaviors": behaviors,
